@@ -500,6 +500,8 @@ impl Node {
         config.historical_execution = true;
         config.p2p = None;
         config.combined_db_config.database_path = dir.to_path_buf();
+        // never reopen a database left by an earlier run
+        let _ = std::fs::remove_dir_all(dir);
         std::fs::create_dir_all(dir).map_err(|e| e.to_string())?;
         let srv = FuelService::new_node(config).await.map_err(|e| format!("node did not start: {e}"))?;
         let client = fuel_core_client::client::FuelClient::from(srv.bound_address);
